@@ -1426,7 +1426,6 @@ func r1320(c *an.Ctx, rule string) {
 	c.Count("sendmsg_error_returns", n)
 }
 
-
 // r1321: a Send after the client has half-closed is answered with an error, as on a real connection (Internal:
 // "SendMsg called after CloseSend"), not with a panic. CloseSend closes clientSend; a send on a closed channel
 // panics, so every send on clientSend in clientStream.SendMsg lies behind a test of a flag that CloseSend sets
